@@ -86,12 +86,19 @@ def op_line(op, nv, ncon_orig):
     """script line for one op; data are formulas over the natural lengths"""
     k, a, b, pat = op
     cyc = lambda p: "cycle %d %s delta 0" % (len(p), " ".join(str(float(v)) for v in p))
+    if k == "PostsolveGenericDbl" and a % 2 == 0:
+        # signed values with zeros: where two values meet on one item (row and slack of a range constraint) the documented
+        # conflict rule "largest among the non-zero ones" (ValueNode::SetNum) is judged, and it matters only with values <= 0
+        return "op %s vars %s cons 3 %s cons 6 affine 0.25 1 delta 0" % (k, cyc([F(p - 2) + F(p % 2, 2) for p in pat]),
+                                                                         cyc([F((p + b) % 5 - 2) - F(p % 2, 4) for p in pat]))
     if k in ("PostsolveSolution", "PostsolveGenericDbl"):
         return "op %s vars affine %d %d delta 0 cons 3 affine %d.5 %d delta 0 cons 6 affine 0.25 1 delta 0" % (k, a, b, a, b)
     if k == "PostsolveBasis":
         return "op %s vars %s cons 3 %s" % (k, cyc([1 + (p % 4) for p in pat]), cyc([1 + ((p + a) % 4) for p in pat]))
     if k == "PostsolveIIS":
         return "op %s vars %s cons 3 %s cons 6 %s" % (k, cyc([p % 4 for p in pat]), cyc([(p + a) % 4 for p in pat]), cyc([0, 4]))
+    if k == "PostsolveGenericInt" and a % 2 == 0:
+        return "op %s vars %s cons 3 %s" % (k, cyc([p - 2 for p in pat]), cyc([(p + b) % 5 - 2 for p in pat]))
     if k == "PostsolveGenericInt":
         return "op %s vars %s cons 3 %s" % (k, cyc([p + a for p in pat]), cyc([p + b for p in pat]))
     # presolve kinds: original vectors have explicit lengths
@@ -228,8 +235,13 @@ def judge(m, accmode, hist, perm_seed, res, tagvar=None):
                 elif kind in ("PostsolveSolution",):
                     exp = rowv
                 else:
-                    # generic: "max among non-zero" of row and slack values - only assert when they agree in being the row's
-                    continue
+                    # generic value kinds: the range constraint receives the row's value and then the slack's (range_con.h
+                    # PostsolveGenericDbl/IntEntry); two values on one item are resolved as documented at ValueNode::SetNum:
+                    # the largest among the non-zero ones, whatever the order
+                    if slack >= len(inv):
+                        continue
+                    nz = [v for v in (rowv, inv[slack]) if v]
+                    exp = max(nz) if nz else 0.0
                 if ocons[i] != exp:
                     problems.append(("con-value", "%s: original linear constraint %d (%s) got %s; its row (group 3 index %d%s) has %s, "
                                      "expected %s" % (kind, i, tags[i][1], ocons[i], g, ", slack var %d" % slack if slack is not None else "",
